@@ -24,7 +24,7 @@ static void setup(bool th) {
     for (int i : ids) { g_rots.push_back(cr[i]); g_rot_exact.push_back(true); }
     g_rots.push_back(rot_z_345()); g_rot_exact.push_back(false); g_rots.push_back(matmul(rot_x_51213(), rot_z_345())); g_rot_exact.push_back(false);
     g_trans = {{0, 0, 0}, {8, -8, 8}, {1024, 1024, -1024}, {1048576, -1048576, 1048576}}; if (th) { g_trans.push_back({0.25, 0, 0}); g_trans.push_back({-3145728, 2097152, 524288}); }
-    g_scales = {1.0, 0.5, 2.0, std::ldexp(1.0, -17), std::ldexp(1.0, -30)};
+    g_scales = {1.0, 0.5, 2.0, std::ldexp(1.0, -17), std::ldexp(1.0, -30), 0.3 /* not a power of two: products of the scaled coordinates are not numbers a narrower type could hold exactly */}; if (th) { g_scales.push_back(1.1e-6); g_scales.push_back(733.1); }
 }
 
 static double mesh_size(const sc::Mesh& m) { double lo[3] = {1e300, 1e300, 1e300}, hi[3] = {-1e300, -1e300, -1e300}; for (size_t i = 0; i < m.nv(); i++) for (int k = 0; k < 3; k++) { lo[k] = std::min(lo[k], m.pos[3*i+k]); hi[k] = std::max(hi[k], m.pos[3*i+k]); } return std::max({hi[0] - lo[0], hi[1] - lo[1], hi[2] - lo[2]}); }
